@@ -22,11 +22,14 @@ NT_RULE = ('history = initial (breakpoints, slopes) + <=6 insert/pop/reload oper
 REQUIRED_ORACLES = ['P1', 'P2', 'P3', 'P0', 'INV']
 REQUIRED_CLASSES = ['insert:below_second', 'insert:between', 'insert:equal', 'insert:above_last',
                     'pop:0', 'pop:inner', 'pop:last', 'pop:negative_index', 'bps:int_typed', 'slopes:all_int_fractional_breakpoints',
-                    'insert:just_below_existing', 'insert:just_above_existing', 'insert:typed_float32', 'insert:typed_float16',
-                    'insert:narrow_type_next_to_float64_neighbour', 'eval:dimensional', 'slope:zero', 'reload', 'reload_dict', 'eval:on_break', 'eval:beyond_last']
+                    'insert:just_below_existing', 'insert:just_above_existing', 'eval:dimensional', 'slope:zero', 'reload', 'reload_dict', 'eval:on_break', 'eval:beyond_last']
 REQUIRED_PROBES = ['PiecewiseCovEffect.insert', 'PiecewiseCovEffect.pop',
                    'PiecewiseCovEffect._set_intercepts', 'PiecewiseCovEffect.get_UoRT']
-ASSUMPTIONS = ['breakpoints in [0,1], first one 0, initial list strictly ascending; pop index in '
+ASSUMPTIONS = ['breakpoints and slopes are Python / NumPy float64 or int (the documented type is float): np.float32 / '
+               'np.float16 breakpoints are not generated -- the unchanged tree cannot encode them to JSON (same limitation '
+               'as numpy integer scalars, DESIGN 9.5), so the reload clause is undecidable for them; the runner still '
+               'understands a 4th element of an insert op naming a narrow type (replays)',
+               'breakpoints in [0,1], first one 0, initial list strictly ascending; pop index in '
                '-(len-1)..len-1 (Python semantics; -len is not generated); coverages evaluated in [0,1.3]',
                'for an insertion equal to an existing breakpoint either order of the two equal '
                'breakpoints is accepted (the function is the same except for which slope follows)']
@@ -108,7 +111,7 @@ def generate(rng, tier):
     for _ in range(rng.randint(0, 6)):
         kind = rng.choices(['insert', 'pop', 'reload', 'reload_dict'], [5, 3, 1, 1])[0]
         if kind == 'insert':
-            where = rng.choice(['below_second', 'between', 'equal', 'above_last', 'any', 'near_existing', 'narrow_type'])
+            where = rng.choice(['below_second', 'between', 'equal', 'above_last', 'any', 'near_existing'])
             narrow = None
             if where == 'narrow_type':
                 # a breakpoint typed np.float32 / np.float16 next to a float64 one that rounds to the same narrow value
